@@ -1,5 +1,579 @@
-import AsyncVerif.Proofs.Core
-import AsyncVerif.Impl.Aggregations
+import AsyncVerif.Proofs.AggValues
+/-!
+# C02 — aggregations return the standard-library result
+
+Value theorems for the aggregation models on **fault-free worlds**: the source `s` is usable and its
+remaining script consists of the items `items` only (`Feeds w s items`), user callables are pure total
+functions (`PureFn`, `KeyFn`), and the fuel exceeds the number of loop iterations.  Every theorem is
+stated for an arbitrary such world `w` (arbitrary log so far, arbitrary other sources, arbitrary
+source kind), for every item list, every `n`, every `start`/`initial`/`default`.
+
+For every tool there is the theorem about the CPython algorithm (`C02_<tool>_std_value`, model
+`Std.*`) and the same statement about the model of asyncstdlib (`C02_<tool>_value`, model `Impl.*`);
+the second follows from the first because the asyncstdlib models are the CPython loops inside
+`scopedIter`, which changes neither result, visible log nor any remaining script
+(`scopedIter_value`; in *every* world result and log agree, `scopedIter_twin`).
+
+The list-level meanings are in `Std/ListSpec.lean`; their characterisations (first minimal item,
+permutation / ordered / stable, fails-exactly-when-an-addition-fails) are proved here as pure list
+facts (`C02_spec_*`).
+
+Beyond the orderable/fault-free case: `C02_sum_error_position`, `C02_min_max_scan` + `C02_spec_scan`,
+`C02_sorted_unorderable` say where and how `TypeError` arises from an addition / comparison that is
+not defined.  `C02_no_argument_mutation` holds in **every** world (faulty or not).
+
+What the value domain cannot express: there is no mutable container among the values (`Val` is an
+immutable tree), so "no argument object is mutated" is stated as far as the model can carry it:
+the aggregation only takes responses off the front of its own source and leaves every other source
+and every callable as it was (`C02_no_argument_mutation`, all worlds); a default / start value is
+handed back as the very same value and enters the computation only as an operand of `Val.add`
+(`C02_min_max_empty`, `C02_sum_start_only_through_add`).  Float summation is outside the
+exact-integer value model.
+-/
 namespace AsyncVerif
-theorem C02_placeholder_true : True := trivial
+
+open ListSpec
+
+/-! ## all / any -/
+
+/-- CPython `all`: on a fault-free source delivering `items` the result is `List.all` on truthiness;
+    it short-circuits: exactly `allConsumed items` items (position of the first falsy item + 1, see
+    `C02_spec_all_consumed`) are taken off the source, the rest is still scripted afterwards, and the
+    visible log is exactly the pulls of the consumed items, plus the end-of-source detection iff
+    every item was truthy. -/
+theorem C02_all_std_value (s fuel : Nat) (items : List Val) (w : World)
+    (hf : Feeds w s items) (hlt : items.length < fuel) :
+    (Std.allLoop s fuel w).1 = .ok (.bool (items.all Val.truthy)) ∧
+    ((Std.allLoop s fuel w).2.srcs s).script = (items.drop (allConsumed items)).map Resp.item ∧
+    (Std.allLoop s fuel w).2.vis = w.vis ++ pullLog s (items.take (allConsumed items))
+      ++ (if items.all Val.truthy then endLog s else []) :=
+  allLoop_value s items fuel w hf hlt
+
+/-- asyncstdlib `all`: same result, same short-circuit (remaining script), same visible log as CPython `all`. -/
+theorem C02_all_value (s fuel : Nat) (items : List Val) (w : World)
+    (hf : Feeds w s items) (hlt : items.length < fuel) :
+    (Impl.all s fuel w).1 = .ok (.bool (items.all Val.truthy)) ∧
+    ((Impl.all s fuel w).2.srcs s).script = (items.drop (allConsumed items)).map Resp.item ∧
+    (Impl.all s fuel w).2.vis = w.vis ++ pullLog s (items.take (allConsumed items))
+      ++ (if items.all Val.truthy then endLog s else []) := by
+  obtain ⟨h1, h2, h3, -⟩ := scopedIter_lift s (Std.allLoop s fuel) w
+  unfold Impl.all
+  rw [h1, h2, h3]
+  exact allLoop_value s items fuel w hf hlt
+
+/-- what `allConsumed` means: with a first falsy item at position `pre.length`, `pre.length + 1`
+    items are consumed; without any falsy item, all of them (and the end of the source is seen). -/
+theorem C02_spec_all_consumed :
+    (∀ (pre : List Val) (x : Val) (post : List Val), (∀ y ∈ pre, y.truthy = true) → x.truthy = false →
+      allConsumed (pre ++ x :: post) = pre.length + 1) ∧
+    (∀ items : List Val, (∀ y ∈ items, y.truthy = true) → allConsumed items = items.length + 1) :=
+  ⟨allConsumed_first_falsy, allConsumed_all_truthy⟩
+
+/-- CPython `any`: `List.any` on truthiness, consuming exactly up to and including the first truthy
+    item; the end-of-source detection is logged iff no item was truthy. -/
+theorem C02_any_std_value (s fuel : Nat) (items : List Val) (w : World)
+    (hf : Feeds w s items) (hlt : items.length < fuel) :
+    (Std.anyLoop s fuel w).1 = .ok (.bool (items.any Val.truthy)) ∧
+    ((Std.anyLoop s fuel w).2.srcs s).script = (items.drop (anyConsumed items)).map Resp.item ∧
+    (Std.anyLoop s fuel w).2.vis = w.vis ++ pullLog s (items.take (anyConsumed items))
+      ++ (if items.any Val.truthy then [] else endLog s) :=
+  anyLoop_value s items fuel w hf hlt
+
+/-- asyncstdlib `any`: same result, same short-circuit, same visible log as CPython `any`. -/
+theorem C02_any_value (s fuel : Nat) (items : List Val) (w : World)
+    (hf : Feeds w s items) (hlt : items.length < fuel) :
+    (Impl.any s fuel w).1 = .ok (.bool (items.any Val.truthy)) ∧
+    ((Impl.any s fuel w).2.srcs s).script = (items.drop (anyConsumed items)).map Resp.item ∧
+    (Impl.any s fuel w).2.vis = w.vis ++ pullLog s (items.take (anyConsumed items))
+      ++ (if items.any Val.truthy then [] else endLog s) := by
+  obtain ⟨h1, h2, h3, -⟩ := scopedIter_lift s (Std.anyLoop s fuel) w
+  unfold Impl.any
+  rw [h1, h2, h3]
+  exact anyLoop_value s items fuel w hf hlt
+
+/-- what `anyConsumed` means: first truthy item at position `pre.length` → `pre.length + 1` items
+    consumed; no truthy item → all of them. -/
+theorem C02_spec_any_consumed :
+    (∀ (pre : List Val) (x : Val) (post : List Val), (∀ y ∈ pre, y.truthy = false) → x.truthy = true →
+      anyConsumed (pre ++ x :: post) = pre.length + 1) ∧
+    (∀ items : List Val, (∀ y ∈ items, y.truthy = false) → anyConsumed items = items.length + 1) :=
+  ⟨anyConsumed_first_truthy, anyConsumed_all_falsy⟩
+
+/-! ## list / tuple -/
+
+/-- CPython `list(iterable)` (the collecting loop): the items themselves, in order, as the very
+    same values; the source is used up; the log is one pull per item and the final end detection. -/
+theorem C02_collect_std_value (s fuel : Nat) (items : List Val) (w : World)
+    (hf : Feeds w s items) (hlt : items.length < fuel) :
+    (Std.collectAll s [] fuel w).1 = .ok items ∧
+    ((Std.collectAll s [] fuel w).2.srcs s).script = [] ∧
+    (Std.collectAll s [] fuel w).2.vis = w.vis ++ pullLog s items ++ endLog s := by
+  simpa using collectAll_value s items [] fuel w hf hlt
+
+/-- asyncstdlib `list`: returns `[items…]`, consumes the whole source. -/
+theorem C02_list_value (s fuel : Nat) (items : List Val) (w : World)
+    (hf : Feeds w s items) (hlt : items.length < fuel) :
+    (Impl.list s fuel w).1 = .ok (.lst items) ∧
+    ((Impl.list s fuel w).2.srcs s).script = [] ∧
+    (Impl.list s fuel w).2.vis = w.vis ++ pullLog s items ++ endLog s := by
+  obtain ⟨h1, h2, h3, -⟩ := scopedIter_lift s (Std.collectAll s [] fuel >>= fun l => pure (Val.lst l)) w
+  unfold Impl.list
+  rw [h1, h2, h3]
+  have h := C02_collect_std_value s fuel items w hf hlt
+  rcases hc : Std.collectAll s [] fuel w with ⟨r, w1⟩
+  rw [hc] at h
+  obtain ⟨hr, hs, hv⟩ := h
+  simp only at hr hs hv
+  subst hr
+  simp [bind_apply, hc, pure_apply, hs, hv]
+
+/-- asyncstdlib `tuple`: returns `(items…)`, consumes the whole source. -/
+theorem C02_tuple_value (s fuel : Nat) (items : List Val) (w : World)
+    (hf : Feeds w s items) (hlt : items.length < fuel) :
+    (Impl.tuple s fuel w).1 = .ok (.tup items) ∧
+    ((Impl.tuple s fuel w).2.srcs s).script = [] ∧
+    (Impl.tuple s fuel w).2.vis = w.vis ++ pullLog s items ++ endLog s := by
+  obtain ⟨h1, h2, h3, -⟩ := scopedIter_lift s (Std.collectAll s [] fuel >>= fun l => pure (Val.tup l)) w
+  unfold Impl.tuple
+  rw [h1, h2, h3]
+  have h := C02_collect_std_value s fuel items w hf hlt
+  rcases hc : Std.collectAll s [] fuel w with ⟨r, w1⟩
+  rw [hc] at h
+  obtain ⟨hr, hs, hv⟩ := h
+  simp only at hr hs hv
+  subst hr
+  simp [bind_apply, hc, pure_apply, hs, hv]
+
+/-! ## sum -/
+
+/-- CPython `sum`: the outcome (value **or** exception) is the left fold of `Val.add` from the start
+    value, `foldAdd`; when the fold succeeds the whole source was consumed. -/
+theorem C02_sum_std_value (s fuel : Nat) (start : Val) (items : List Val) (w : World)
+    (hf : Feeds w s items) (hlt : items.length < fuel) :
+    (Std.sumLoop s start fuel w).1 = foldAdd start items ∧
+    (∀ v, foldAdd start items = .ok v →
+      ((Std.sumLoop s start fuel w).2.srcs s).script = [] ∧
+      (Std.sumLoop s start fuel w).2.vis = w.vis ++ pullLog s items ++ endLog s) :=
+  sumLoop_value s items start fuel w hf hlt
+
+/-- asyncstdlib `sum(iterable, start=0)`: the outcome is `foldAdd (start or 0) items` — value and
+    `TypeError` alike. -/
+theorem C02_sum_value (s fuel : Nat) (start : Option Val) (items : List Val) (w : World)
+    (hf : Feeds w s items) (hlt : items.length < fuel) :
+    (Impl.sum start s fuel w).1 = foldAdd (start.getD (.int 0)) items ∧
+    (∀ v, foldAdd (start.getD (.int 0)) items = .ok v →
+      ((Impl.sum start s fuel w).2.srcs s).script = [] ∧
+      (Impl.sum start s fuel w).2.vis = w.vis ++ pullLog s items ++ endLog s) := by
+  obtain ⟨h1, h2, h3, -⟩ := scopedIter_lift s (Std.sumLoop s (start.getD (.int 0)) fuel) w
+  unfold Impl.sum
+  rw [h1, h2, h3]
+  exact sumLoop_value s items _ fuel w hf hlt
+
+/-- `sum` when an addition fails: if the fold of the prefix `pre` gives `t` and `t + x` fails with
+    `e`, then asyncstdlib's and CPython's `sum` raise `e` having pulled exactly `pre` and `x` — the
+    rest `post` is still scripted, the log is the pulls of `pre ++ [x]` and nothing else. -/
+theorem C02_sum_error_position (s fuel : Nat) (start : Option Val) (pre : List Val) (x : Val)
+    (post : List Val) (t : Val) (e : Exc) (w : World)
+    (hf : Feeds w s (pre ++ x :: post)) (hfold : foldAdd (start.getD (.int 0)) pre = .ok t)
+    (hadd : t.add x = .error e) (hlt : pre.length < fuel) :
+    (Impl.sum start s fuel w).1 = .error e ∧
+    ((Impl.sum start s fuel w).2.srcs s).script = post.map Resp.item ∧
+    (Impl.sum start s fuel w).2.vis = w.vis ++ pullLog s (pre ++ [x]) ∧
+    (Std.sumLoop s (start.getD (.int 0)) fuel w).1 = .error e := by
+  obtain ⟨h1, h2, h3, -⟩ := scopedIter_lift s (Std.sumLoop s (start.getD (.int 0)) fuel) w
+  unfold Impl.sum
+  rw [h1, h2, h3]
+  have h := sumLoop_error s x post e pre _ t fuel w hf hfold hadd hlt
+  exact ⟨h.1, h.2.1, h.2.2, h.1⟩
+
+/-- the list-level sum is the monadic left fold of `Val.add` (core `List.foldlM` in `Except`). -/
+theorem C02_spec_sum_is_foldlM (start : Val) (items : List Val) :
+    foldAdd start items = items.foldlM Val.add start := foldAdd_eq_foldlM items start
+
+/-- `sum` raises exactly when some addition of the fold fails: at the first position whose addition
+    (accumulated total `+` item) fails, and with that addition's error, which is always `TypeError`. -/
+theorem C02_spec_sum_error_iff (e : Exc) (start : Val) (items : List Val) :
+    (foldAdd start items = .error e ↔
+      ∃ pre x post t, items = pre ++ x :: post ∧ foldAdd start pre = .ok t ∧ t.add x = .error e) ∧
+    (foldAdd start items = .error e → e = .typeError) :=
+  ⟨foldAdd_error_iff e items start, foldAdd_error_typeError e items start⟩
+
+/-- on integer items with an integer start the sum is the integer sum. -/
+theorem C02_spec_sum_ints (a : Int) (ns : List Int) :
+    foldAdd (.int a) (ns.map Val.int) = .ok (.int (ns.foldl (· + ·) a)) := foldAdd_ints ns a
+
+/-- the start value of `sum` is used only as the left operand of the first addition: on an empty
+    input it is returned as the very same value, otherwise two start values that add alike to the
+    first item give the same outcome.  (The value domain has no mutable objects — `Val` is an
+    immutable tree — so "the start list is not mutated" cannot even be stated; this is the part
+    that can.) -/
+theorem C02_sum_start_only_through_add (start start' x : Val) (xs : List Val) :
+    foldAdd start [] = .ok start ∧
+    (start.add x = start'.add x → foldAdd start (x :: xs) = foldAdd start' (x :: xs)) := by
+  refine ⟨rfl, ?_⟩
+  intro h
+  simp only [foldAdd, h]
+
+/-! ## reduce -/
+
+/-- CPython `functools.reduce` with a pure binary function `q`: the left fold of `q` from the
+    initial value, or from the first item when there is no initial; empty input without initial is
+    `TypeError`; the whole source is consumed; the visible log is `reduceLog`: every item is pulled
+    and then `q` is applied once to (accumulator so far, item), left to right. -/
+theorem C02_reduce_std_value (f s fuel : Nat) (q : List Val → Val) (initial : Option Val)
+    (items : List Val) (w : World) (hf : Feeds w s items) (hq : PureFn w f q) (hlt : items.length < fuel) :
+    (Std.reduce f initial s fuel w).1 =
+      (match ListSpec.reduce q initial items with | some v => .ok v | none => .error .typeError) ∧
+    ((Std.reduce f initial s fuel w).2.srcs s).script = [] ∧
+    (Std.reduce f initial s fuel w).2.vis = w.vis ++
+      (match initial, items with
+        | some v, items => reduceLog s f q v items
+        | none, [] => endLog s
+        | none, x :: xs => [Ev.pull s, Ev.item s x] ++ reduceLog s f q x xs) :=
+  reduce_value f s q initial items fuel w hf hq hlt
+
+/-- asyncstdlib `reduce`: same value / same `TypeError` / same log as CPython's. -/
+theorem C02_reduce_value (f s fuel : Nat) (q : List Val → Val) (initial : Option Val)
+    (items : List Val) (w : World) (hf : Feeds w s items) (hq : PureFn w f q) (hlt : items.length < fuel) :
+    (Impl.reduce f initial s fuel w).1 =
+      (match ListSpec.reduce q initial items with | some v => .ok v | none => .error .typeError) ∧
+    ((Impl.reduce f initial s fuel w).2.srcs s).script = [] ∧
+    (Impl.reduce f initial s fuel w).2.vis = w.vis ++
+      (match initial, items with
+        | some v, items => reduceLog s f q v items
+        | none, [] => endLog s
+        | none, x :: xs => [Ev.pull s, Ev.item s x] ++ reduceLog s f q x xs) := by
+  obtain ⟨h1, h2, h3, -⟩ := scopedIter_lift s (Std.reduce f initial s fuel) w
+  unfold Impl.reduce
+  rw [h1, h2, h3]
+  exact reduce_value f s q initial items fuel w hf hq hlt
+
+/-- the cases of `ListSpec.reduce` spelled out with core `List.foldl`. -/
+theorem C02_spec_reduce (q : List Val → Val) (init x : Val) (xs items : List Val) :
+    ListSpec.reduce q (some init) items = some (items.foldl (fun a y => q [a, y]) init) ∧
+    ListSpec.reduce q none (x :: xs) = some (xs.foldl (fun a y => q [a, y]) x) ∧
+    ListSpec.reduce q none [] = none := ⟨rfl, rfl, rfl⟩
+
+/-! ## min / max -/
+
+/-- CPython `min`/`max` (`isMax` selects) with an optional pure key function and keys that are all
+    orderable: on a non-empty input the result is `firstMin` / `firstMax` under the key — the
+    explicit scan that replaces the candidate only on a **strict** improvement; on an empty input the
+    default, or `ValueError`.  Everything is consumed; the key is applied exactly once to each item,
+    when it arrives (`keyedPullLog`). -/
+theorem C02_min_max_std_value (fn : Option Nat) (isMax : Bool) (default : Option Val) (s fuel : Nat)
+    (kf : Val → Val) (items : List Val) (w : World)
+    (hf : Feeds w s items) (hk : KeyFn w fn kf) (hall : ∀ x ∈ items, (kf x).orderable = true)
+    (hlt : items.length < fuel) :
+    (Std.minmax fn isMax default s fuel w).1 =
+      (match firstBest isMax (fun x => (kf x).ikey) items, default with
+        | some r, _ => .ok r
+        | none, some d => .ok d
+        | none, none => .error .valueError) ∧
+    ((Std.minmax fn isMax default s fuel w).2.srcs s).script = [] ∧
+    (Std.minmax fn isMax default s fuel w).2.vis = w.vis ++ keyedPullLog s fn kf items ++ endLog s :=
+  minmax_value fn isMax default s kf items fuel w hf hk hall (Nat.le_of_lt hlt)
+
+/-- asyncstdlib `min`/`max`: same value, same default handling, same `ValueError`, same log as CPython's. -/
+theorem C02_min_max_value (fn : Option Nat) (isMax : Bool) (default : Option Val) (s fuel : Nat)
+    (kf : Val → Val) (items : List Val) (w : World)
+    (hf : Feeds w s items) (hk : KeyFn w fn kf) (hall : ∀ x ∈ items, (kf x).orderable = true)
+    (hlt : items.length < fuel) :
+    (Impl.minmax fn isMax default s fuel w).1 =
+      (match firstBest isMax (fun x => (kf x).ikey) items, default with
+        | some r, _ => .ok r
+        | none, some d => .ok d
+        | none, none => .error .valueError) ∧
+    ((Impl.minmax fn isMax default s fuel w).2.srcs s).script = [] ∧
+    (Impl.minmax fn isMax default s fuel w).2.vis = w.vis ++ keyedPullLog s fn kf items ++ endLog s := by
+  obtain ⟨h1, h2, h3, -⟩ := scopedIter_lift s (Std.minmax fn isMax default s fuel) w
+  unfold Impl.minmax
+  rw [h1, h2, h3]
+  exact C02_min_max_std_value fn isMax default s fuel kf items w hf hk hall hlt
+
+/-- asyncstdlib `min` on a non-empty input returns **the first item whose key is minimal**: the
+    returned value is an item of the input at a definite position, every earlier item has a strictly
+    larger key and no later item has a smaller key (whatever the default). -/
+theorem C02_min_first_minimal (fn : Option Nat) (default : Option Val) (s fuel : Nat)
+    (kf : Val → Val) (items : List Val) (w : World) (hne : items ≠ [])
+    (hf : Feeds w s items) (hk : KeyFn w fn kf) (hall : ∀ x ∈ items, (kf x).orderable = true)
+    (hlt : items.length < fuel) :
+    ∃ r pre post, (Impl.minmax fn false default s fuel w).1 = .ok r ∧ items = pre ++ r :: post ∧
+      (∀ y ∈ pre, (kf r).ikey < (kf y).ikey) ∧ (∀ y ∈ post, (kf r).ikey ≤ (kf y).ikey) := by
+  have h := (C02_min_max_value fn false default s fuel kf items w hf hk hall hlt).1
+  cases items with
+  | nil => exact absurd rfl hne
+  | cons x xs =>
+    obtain ⟨pre, post, h1, h2, h3⟩ :=
+      firstMin_spec (fun x => (kf x).ikey) (x :: xs) (firstMinFrom (fun x => (kf x).ikey) x xs) rfl
+    exact ⟨_, pre, post, by simpa [firstBest, firstMin] using h, h1, h2, h3⟩
+
+/-- asyncstdlib `max` on a non-empty input returns **the first item whose key is maximal**: every
+    earlier item has a strictly smaller key and no later item has a larger key. -/
+theorem C02_max_first_maximal (fn : Option Nat) (default : Option Val) (s fuel : Nat)
+    (kf : Val → Val) (items : List Val) (w : World) (hne : items ≠ [])
+    (hf : Feeds w s items) (hk : KeyFn w fn kf) (hall : ∀ x ∈ items, (kf x).orderable = true)
+    (hlt : items.length < fuel) :
+    ∃ r pre post, (Impl.minmax fn true default s fuel w).1 = .ok r ∧ items = pre ++ r :: post ∧
+      (∀ y ∈ pre, (kf y).ikey < (kf r).ikey) ∧ (∀ y ∈ post, (kf y).ikey ≤ (kf r).ikey) := by
+  have h := (C02_min_max_value fn true default s fuel kf items w hf hk hall hlt).1
+  cases items with
+  | nil => exact absurd rfl hne
+  | cons x xs =>
+    obtain ⟨pre, post, h1, h2, h3⟩ :=
+      firstMax_spec (fun x => (kf x).ikey) (x :: xs) (firstMaxFrom (fun x => (kf x).ikey) x xs) rfl
+    exact ⟨_, pre, post, by simpa [firstBest, firstMax] using h, h1, h2, h3⟩
+
+/-- pure list fact: `firstMin` / `firstMax` are the first minimal / first maximal item (position,
+    strictness before, non-strictness after). -/
+theorem C02_spec_first_min_max (ik : Val → Int) (items : List Val) (r : Val) :
+    (firstMin ik items = some r →
+      ∃ pre post, items = pre ++ r :: post ∧ (∀ y ∈ pre, ik r < ik y) ∧ (∀ y ∈ post, ik r ≤ ik y)) ∧
+    (firstMax ik items = some r →
+      ∃ pre post, items = pre ++ r :: post ∧ (∀ y ∈ pre, ik y < ik r) ∧ (∀ y ∈ post, ik y ≤ ik r)) :=
+  ⟨firstMin_spec ik items r, firstMax_spec ik items r⟩
+
+/-- `min`/`max` of an empty input, for **any** key callable (pure or not, faulty or not): with a
+    default the result is the default as the very same value (no copy, no key applied); the visible
+    log gains exactly the pull and the end-of-source detection — no `call` event — and no call
+    counter moves; without default the result is `ValueError`. -/
+theorem C02_min_max_empty (fn : Option Nat) (isMax : Bool) (default : Option Val) (s fuel : Nat) (w : World)
+    (hf : Feeds w s []) :
+    (Impl.minmax fn isMax default s fuel w).1 = (match default with | some d => .ok d | none => .error .valueError) ∧
+    (Impl.minmax fn isMax default s fuel w).2.vis = w.vis ++ endLog s ∧
+    (Impl.minmax fn isMax default s fuel w).2.calls = w.calls ∧
+    ((Impl.minmax fn isMax default s fuel w).2.srcs s).script = [] := by
+  obtain ⟨h1, h2, h3, h4⟩ := scopedIter_lift s (Std.minmax fn isMax default s fuel) w
+  unfold Impl.minmax
+  rw [h1, h2, h3, h4]
+  exact minmax_empty fn isMax default s fuel w hf
+
+/-- asyncstdlib `min`/`max` on a non-empty input with **arbitrary** keys (orderable or not): the
+    outcome — value or exception — is the list-level scan `scanBest` with Python's `<`
+    (`key(x) < key(best)` for `min`, `key(best) < key(x)` for `max`), started at the first item. -/
+theorem C02_min_max_scan (fn : Option Nat) (isMax : Bool) (default : Option Val) (s fuel : Nat)
+    (kf : Val → Val) (x : Val) (rest : List Val) (w : World)
+    (hf : Feeds w s (x :: rest)) (hk : KeyFn w fn kf) (hlt : rest.length < fuel) :
+    (Std.minmax fn isMax default s fuel w).1 = scanBest isMax kf x rest ∧
+    (Impl.minmax fn isMax default s fuel w).1 = scanBest isMax kf x rest := by
+  obtain ⟨h1, -, -, -⟩ := scopedIter_lift s (Std.minmax fn isMax default s fuel) w
+  unfold Impl.minmax
+  rw [h1]
+  exact ⟨(minmax_scan fn isMax default s kf x rest fuel w hf hk hlt).1,
+         (minmax_scan fn isMax default s kf x rest fuel w hf hk hlt).1⟩
+
+/-- what the scan does with keys that cannot be compared: it can fail only with `TypeError`; it does
+    fail with `TypeError` as soon as the first comparison involves an unorderable key; a single item
+    is returned without any comparison, whatever its key; with orderable keys it never fails and is
+    `firstMax` / `firstMin`. -/
+theorem C02_spec_scan (isMax : Bool) (kf : Val → Val) (best x : Val) (xs : List Val) :
+    (∀ e, scanBest isMax kf best xs = .error e → e = .typeError) ∧
+    ((kf best).orderable = false ∨ (kf x).orderable = false →
+      scanBest isMax kf best (x :: xs) = .error .typeError) ∧
+    scanBest isMax kf best [] = .ok best ∧
+    ((kf best).orderable = true → (∀ y ∈ xs, (kf y).orderable = true) →
+      scanBest isMax kf best xs =
+        .ok (if isMax then firstMaxFrom (fun y => (kf y).ikey) best xs
+             else firstMinFrom (fun y => (kf y).ikey) best xs)) :=
+  ⟨fun e => scanBest_error isMax kf e xs best, scanBest_unorderable isMax kf best x xs, rfl,
+   scanBest_orderable isMax kf xs best⟩
+
+/-! ## sorted -/
+
+/-- CPython `sorted(iterable, key=, reverse=)` with a pure key function and orderable keys: the list
+    `ListSpec.sorted reverse key items` — core `List.mergeSort` by integer key, for `reverse` with
+    the flipped comparison (not a reversed ascending sort).  The whole input is consumed before, the
+    key applied once per item as it arrives. -/
+theorem C02_sorted_std_value (fn : Option Nat) (reverse : Bool) (s fuel : Nat) (kf : Val → Val)
+    (items : List Val) (w : World)
+    (hf : Feeds w s items) (hk : KeyFn w fn kf) (hall : ∀ x ∈ items, (kf x).orderable = true)
+    (hlt : items.length < fuel) :
+    (Std.sorted fn reverse s fuel w).1 = .ok (.lst (ListSpec.sorted reverse (fun x => (kf x).ikey) items)) ∧
+    ((Std.sorted fn reverse s fuel w).2.srcs s).script = [] ∧
+    (Std.sorted fn reverse s fuel w).2.vis = w.vis ++ keyedPullLog s fn kf items ++ endLog s :=
+  sorted_value fn reverse s kf items fuel w hf hk hall hlt
+
+/-- asyncstdlib `sorted`: the same list, the same log. -/
+theorem C02_sorted_value (fn : Option Nat) (reverse : Bool) (s fuel : Nat) (kf : Val → Val)
+    (items : List Val) (w : World)
+    (hf : Feeds w s items) (hk : KeyFn w fn kf) (hall : ∀ x ∈ items, (kf x).orderable = true)
+    (hlt : items.length < fuel) :
+    (Impl.sorted fn reverse s fuel w).1 = .ok (.lst (ListSpec.sorted reverse (fun x => (kf x).ikey) items)) ∧
+    ((Impl.sorted fn reverse s fuel w).2.srcs s).script = [] ∧
+    (Impl.sorted fn reverse s fuel w).2.vis = w.vis ++ keyedPullLog s fn kf items ++ endLog s :=
+  impl_sorted_value fn reverse s kf items fuel w hf hk hall hlt
+
+/-- `sorted` with keys that cannot be compared: two or more items, one of whose keys is unorderable,
+    give `TypeError` (after the whole input was consumed); at most one item is returned as it is,
+    whatever its key.  Same for CPython's and asyncstdlib's. -/
+theorem C02_sorted_unorderable (fn : Option Nat) (reverse : Bool) (s fuel : Nat) (kf : Val → Val)
+    (items : List Val) (w : World)
+    (hf : Feeds w s items) (hk : KeyFn w fn kf) (hlt : items.length < fuel) :
+    (2 ≤ items.length → (∃ x ∈ items, (kf x).orderable = false) →
+      (Std.sorted fn reverse s fuel w).1 = .error .typeError ∧
+      (Impl.sorted fn reverse s fuel w).1 = .error .typeError) ∧
+    (items.length ≤ 1 →
+      (Std.sorted fn reverse s fuel w).1 = .ok (.lst items) ∧
+      (Impl.sorted fn reverse s fuel w).1 = .ok (.lst items)) := by
+  have h1 := (sorted_gen fn reverse s kf items fuel w hf hk hlt).1
+  have h2 := (impl_sorted_gen fn reverse s kf items fuel w hf hk hlt).1
+  constructor
+  · intro hlen hbad
+    rw [sortKeyed_typeError reverse kf items hlen hbad] at h1 h2
+    exact ⟨h1, h2⟩
+  · intro hlen
+    rw [sortKeyed_short reverse _ (by simpa using hlen)] at h1 h2
+    simp only [List.map_map, Function.comp_def, List.map_id'] at h1 h2
+    exact ⟨h1, h2⟩
+
+/-- what `ListSpec.sorted` is, for both directions: a permutation of the input; ordered by key
+    (ascending, descending with `reverse`); and **stable** — for every key value the items with that
+    key appear in exactly their input order (also with `reverse`), and more generally every sublist
+    of the input that is already in order survives as a sublist. -/
+theorem C02_spec_sorted (reverse : Bool) (ik : Val → Int) (items : List Val) :
+    (ListSpec.sorted reverse ik items).Perm items ∧
+    (ListSpec.sorted reverse ik items).Pairwise (fun a b => if reverse then ik b ≤ ik a else ik a ≤ ik b) ∧
+    (∀ k : Int, (ListSpec.sorted reverse ik items).filter (fun x => ik x == k) = items.filter (fun x => ik x == k)) ∧
+    (∀ c : List Val, c.Pairwise (fun a b => sortLe reverse ik a b = true) → c.Sublist items →
+      c.Sublist (ListSpec.sorted reverse ik items)) :=
+  ⟨sorted_perm reverse ik items, sorted_pairwise reverse ik items, sorted_stable reverse ik items,
+   fun c hc hs => sorted_sublist reverse ik items c hc hs⟩
+
+/-! ## nlargest / nsmallest -/
+
+/-- `nlargest(0, …)` / `nsmallest(0, …)`: the empty list, and the world is left exactly as it was by
+    the CPython algorithm — nothing is pulled, no callable runs; asyncstdlib's version likewise
+    leaves the visible log, every script and every call counter unchanged. -/
+theorem C02_nbest_zero (largest : Bool) (fn : Option Nat) (s fuel : Nat) (w : World) :
+    Std.nBest largest 0 fn s fuel w = (.ok (.lst []), w) ∧
+    (Impl.nBest largest 0 fn s fuel w).1 = .ok (.lst []) ∧
+    (Impl.nBest largest 0 fn s fuel w).2.vis = w.vis ∧
+    (∀ s', ((Impl.nBest largest 0 fn s fuel w).2.srcs s').script = (w.srcs s').script) ∧
+    (Impl.nBest largest 0 fn s fuel w).2.calls = w.calls := by
+  have h0 := nBest_zero largest fn s fuel w
+  obtain ⟨h1, h2, h3, h4⟩ := scopedIter_value s (Std.nBest largest 0 fn s fuel) w
+  unfold Impl.nBest
+  refine ⟨h0, ?_, ?_, ?_, ?_⟩
+  · rw [h1, h0]
+  · rw [h2, h0]
+  · intro s'; rw [h3 s', h0]
+  · rw [h4, h0]
+
+/-- CPython `heapq.nlargest(n, …)` (`largest = true`) / `nsmallest(n, …)` for `n > 0`, pure key,
+    orderable keys: `(sorted …).take n` — the first `n` of the stable sort (descending for
+    `nlargest`), for every `n` including `n > len(items)` (then: the whole sorted list). -/
+theorem C02_nbest_std_value (largest : Bool) (n : Nat) (fn : Option Nat) (s fuel : Nat) (kf : Val → Val)
+    (items : List Val) (w : World) (hn : n ≠ 0)
+    (hf : Feeds w s items) (hk : KeyFn w fn kf) (hall : ∀ x ∈ items, (kf x).orderable = true)
+    (hlt : items.length < fuel) :
+    (Std.nBest largest n fn s fuel w).1 = .ok (.lst (ListSpec.nBest largest n (fun x => (kf x).ikey) items)) ∧
+    ((Std.nBest largest n fn s fuel w).2.srcs s).script = [] ∧
+    (Std.nBest largest n fn s fuel w).2.vis = w.vis ++ keyedPullLog s fn kf items ++ endLog s :=
+  nBest_value largest n fn s kf items fuel w hn hf hk hall hlt
+
+/-- asyncstdlib `nlargest` / `nsmallest` for **every** `n` (0, small, larger than the input):
+    `(sorted …).take n`; for `n > 0` the whole input is consumed, the key applied once per item. -/
+theorem C02_nbest_value (largest : Bool) (n : Nat) (fn : Option Nat) (s fuel : Nat) (kf : Val → Val)
+    (items : List Val) (w : World)
+    (hf : Feeds w s items) (hk : KeyFn w fn kf) (hall : ∀ x ∈ items, (kf x).orderable = true)
+    (hlt : items.length < fuel) :
+    (Impl.nBest largest n fn s fuel w).1 = .ok (.lst (ListSpec.nBest largest n (fun x => (kf x).ikey) items)) ∧
+    (n ≠ 0 → ((Impl.nBest largest n fn s fuel w).2.srcs s).script = [] ∧
+      (Impl.nBest largest n fn s fuel w).2.vis = w.vis ++ keyedPullLog s fn kf items ++ endLog s) := by
+  by_cases hn : n = 0
+  · subst hn
+    rw [(C02_nbest_zero largest fn s fuel w).2.1]
+    simp [ListSpec.nBest]
+  · obtain ⟨h1, h2, h3, -⟩ := scopedIter_lift s (Std.nBest largest n fn s fuel) w
+    unfold Impl.nBest
+    rw [h1, h2, h3]
+    have h := nBest_value largest n fn s kf items fuel w hn hf hk hall hlt
+    exact ⟨h.1, fun _ => h.2⟩
+
+/-- `n ≥ len(items)`: `nlargest`/`nsmallest` return the whole sorted list. -/
+theorem C02_spec_nbest_all (largest : Bool) (n : Nat) (ik : Val → Int) (items : List Val)
+    (h : items.length ≤ n) : ListSpec.nBest largest n ik items = ListSpec.sorted largest ik items := by
+  unfold ListSpec.nBest
+  apply List.take_of_length_le
+  simpa [ListSpec.sorted] using h
+
+/-! ## Same outcome and same visible log as the CPython algorithm — every world -/
+
+/-- **every world** (any input, any fault position, any callable behaviour, any fuel): each
+    aggregation of asyncstdlib ends the same way (same value or same exception) and leaves the same
+    visible log of pulls, end detections and callable invocations as the CPython algorithm of its
+    standard-library namesake.  (`all`/`any`: `C05_all`, `C05_any`.) -/
+theorem C02_twin_every_world (s fuel : Nat) :
+    Twin (Impl.list s fuel) (do pure (.lst (← Std.collectAll s [] fuel))) ∧
+    Twin (Impl.tuple s fuel) (do pure (.tup (← Std.collectAll s [] fuel))) ∧
+    (∀ start, Twin (Impl.sum start s fuel) (Std.sumLoop s (start.getD (.int 0)) fuel)) ∧
+    (∀ f ini, Twin (Impl.reduce f ini s fuel) (Std.reduce f ini s fuel)) ∧
+    (∀ fn isMax d, Twin (Impl.minmax fn isMax d s fuel) (Std.minmax fn isMax d s fuel)) ∧
+    (∀ fn rev, Twin (Impl.sorted fn rev s fuel) (Std.sorted fn rev s fuel)) ∧
+    (∀ largest n fn, Twin (Impl.nBest largest n fn s fuel) (Std.nBest largest n fn s fuel)) :=
+  ⟨scopedIter_twin s _, scopedIter_twin s _, fun _ => scopedIter_twin s _, fun _ _ => scopedIter_twin s _,
+   fun _ _ _ => scopedIter_twin s _, fun fn rev => impl_sorted_twin fn rev s fuel,
+   fun _ _ _ => scopedIter_twin s _⟩
+
+/-! ## The arguments are only consumed — every world -/
+
+/-- **every world** (faulty sources, failing callables, any fuel): the only thing an aggregation of
+    asyncstdlib does to its arguments is take responses off the front of its iterable `s` (and close
+    it): every other source is left exactly as it was, the behaviour of every callable is unchanged,
+    and what `s` still has to deliver is a suffix of what it had to deliver before — nothing is
+    rewritten, reordered or put back.  (There are no mutable values in the model, see the header.) -/
+theorem C02_no_argument_mutation (s fuel : Nat) :
+    OnlyConsumes s (Impl.all s fuel) ∧ OnlyConsumes s (Impl.any s fuel) ∧
+    OnlyConsumes s (Impl.list s fuel) ∧ OnlyConsumes s (Impl.tuple s fuel) ∧
+    (∀ start, OnlyConsumes s (Impl.sum start s fuel)) ∧
+    (∀ f ini, OnlyConsumes s (Impl.reduce f ini s fuel)) ∧
+    (∀ fn isMax d, OnlyConsumes s (Impl.minmax fn isMax d s fuel)) ∧
+    (∀ fn rev, OnlyConsumes s (Impl.sorted fn rev s fuel)) ∧
+    (∀ largest n fn, OnlyConsumes s (Impl.nBest largest n fn s fuel)) := by
+  refine ⟨?_, ?_, ?_, ?_, ?_, ?_, ?_, ?_, ?_⟩
+  · exact oc_scopedIter (Std.oc_allLoop s fuel)
+  · exact oc_scopedIter (Std.oc_anyLoop s fuel)
+  · exact oc_scopedIter (oc_bind (Std.oc_collectAll s fuel []) (fun _ => oc_pure s _))
+  · exact oc_scopedIter (oc_bind (Std.oc_collectAll s fuel []) (fun _ => oc_pure s _))
+  · intro start; exact oc_scopedIter (Std.oc_sumLoop s fuel _)
+  · intro f ini; exact oc_scopedIter (Std.oc_reduce f ini s fuel)
+  · intro fn isMax d; exact oc_scopedIter (Std.oc_minmax fn isMax d s fuel)
+  · intro fn rev
+    exact oc_bind (oc_scopedIter (Std.oc_collectKeyed fn s fuel []))
+      (fun _ => oc_bind (oc_liftExc s _) (fun _ => oc_pure s _))
+  · intro largest n fn; exact oc_scopedIter (Std.oc_nBest largest n fn s fuel)
+
+/-! ## The hypotheses are satisfiable: a concrete fault-free world -/
+
+/-- a source with two truthy items, a falsy one and a further item -/
+example : Feeds (exampleWorld [.int 3, .obj 1 2, .int 0, .int 5]) 0 [.int 3, .obj 1 2, .int 0, .int 5] :=
+  ⟨rfl, rfl⟩
+example : [Val.int 3, .obj 1 2, .int 0, .int 5].length < 5 := by decide
+/-- callable 0 is an identity key function, `key=None` is the identity as well -/
+example : KeyFn (exampleWorld [.int 3, .obj 1 2, .int 0, .int 5]) (some 0) (fun x => x) := fun _ _ => rfl
+example : KeyFn (exampleWorld []) none (fun x => x) := fun _ => rfl
+/-- callable 1 is the pure binary function "right operand" -/
+example : PureFn (exampleWorld []) 1 (fun args => args.getLastD .none) := fun _ _ => rfl
+/-- all keys of the example items are orderable -/
+example : ∀ x ∈ [Val.int 3, .obj 1 2, .int 0, .int 5], ((fun x => x) x).orderable = true := by decide
+/-- the model run on the example world: `all` stops after the third item, one item is left -/
+example : (Impl.all 0 5 (exampleWorld [.int 3, .obj 1 2, .int 0, .int 5])).1 = .ok (.bool false) := by rfl
+example : allConsumed [.int 3, .obj 1 2, .int 0, .int 5] = 3 := by decide
+/-- ties: `min` keeps the first of two items with equal keys, `max` likewise -/
+example : firstMin Val.ikey [.obj 1 7, .obj 2 4, .obj 3 4] = some (.obj 2 4) := by rfl
+example : firstMax Val.ikey [.obj 1 7, .obj 2 4, .obj 3 7] = some (.obj 1 7) := by rfl
+example : (Impl.minmax (some 0) false none 0 5 (exampleWorld [.obj 1 7, .obj 2 4, .obj 3 4])).1 = .ok (.obj 2 4) := by rfl
+/-- the hypotheses of `C02_sum_error_position` on a concrete run: `1 + True` is `2`, `2 + None` fails,
+    the last item is never pulled -/
+example : Feeds (exampleWorld [.int 1, .bool true, .none, .int 4]) 0 ([.int 1, .bool true] ++ .none :: [.int 4]) :=
+  ⟨rfl, rfl⟩
+example : foldAdd ((none : Option Val).getD (.int 0)) [.int 1, .bool true] = .ok (.int 2) := by rfl
+example : (Val.int 2).add .none = .error .typeError := by rfl
+example : (Impl.sum none 0 5 (exampleWorld [.int 1, .bool true, .none, .int 4])).1 = .error .typeError := by rfl
+/-- `reduce` with the "right operand" function returns the last item -/
+example : (Impl.reduce 1 none 0 5 (exampleWorld [.int 1, .int 2, .int 4])).1 = .ok (.int 4) := by rfl
+/-- an unorderable key among two or more items (hypothesis of `C02_sorted_unorderable`) -/
+example : 2 ≤ [Val.int 1, .none].length ∧ ∃ x ∈ [Val.int 1, .none], ((fun x => x) x).orderable = false :=
+  ⟨by decide, .none, by simp, rfl⟩
+
 end AsyncVerif
